@@ -12,7 +12,7 @@ git -C /repo worktree add --detach $WT HEAD >/dev/null 2>&1 || exit 2
 cd $WT
 cp $SRC/demo.py ./demo_seed.py
 timeout 600 /venv/bin/python demo_seed.py >/tmp/seed-$S-clean.log 2>&1; C=$?
-git apply $SRC/patch.diff || { echo "PATCH DOES NOT APPLY"; cd /; git -C /repo worktree remove --force $WT; exit 2; }
+git apply $SRC/patch.diff 2>/dev/null || git apply --3way $SRC/patch.diff || { echo "PATCH DOES NOT APPLY"; cd /; git -C /repo worktree remove --force $WT; exit 2; }
 timeout 900 /venv/bin/python -m pytest -q -p no:cacheprovider --timeout=900 --continue-on-collection-errors 2>&1 | tail -1 > /tmp/seed-$S-tests.log
 timeout 600 /venv/bin/python demo_seed.py >/tmp/seed-$S-patched.log 2>&1; P=$?
 echo "$S: demo clean exit=$C  patched exit=$P  tests: $(cat /tmp/seed-$S-tests.log)"
